@@ -91,9 +91,9 @@ theorem deadlock_free (c0 : Caches) (h0 : Inv cfg c0) (sched : List Nat) (t : Na
     ∃ u, enabled cfg (run cfg (init cfg c0 qss) sched) u = true :=
   some_enabled (inv_reachable (qss := qss) c0 h0 sched) t hf
 
-/-- On an acyclic namespace with the fuel of C13 the `compute_entity_type` loop always completes, so the
-answer to a `reflect` query is C13's `reflect`. -/
-theorem reflectFull_eq_reflect (rows : List Row) (hac : Acyclic (make rows).defs) (fuel : Nat)
+/-- On EVERY namespace (cyclic `is` graphs included, C13) with the fuel of C13 the `compute_entity_type` loop
+always completes, so the answer to a `reflect` query is C13's `reflect`. -/
+theorem reflectFull_eq_reflect (rows : List Row) (fuel : Nat)
     (hf : fuelFor (make rows).defs ≤ fuel) (r : Rec) :
     reflectFull fuel (make rows) r = reflect fuel (make rows) r := by
   have hloop : ∀ ds : List Name, entityLoop fuel (make rows) ds = .ok () := by
@@ -101,9 +101,9 @@ theorem reflectFull_eq_reflect (rows : List Row) (hac : Acyclic (make rows).defs
     induction ds with
     | nil => rfl
     | cons d ds ih =>
-      obtain ⟨res, h1, _⟩ := Ns.inheritance_spec rows hac fuel hf d
+      obtain ⟨res, h1, _⟩ := Ns.inheritance_spec rows fuel hf d
       simp only [entityLoop, h1, ih]
-  obtain ⟨res, h1, _⟩ := Ns.reflect_spec rows hac fuel hf r
+  obtain ⟨res, h1, _⟩ := Ns.reflect_spec rows fuel hf r
   unfold reflectFull
   rw [h1]
   simp only [hloop]
